@@ -98,6 +98,7 @@ def namings_for(pid, tier, seed, cid):
 def run_case(pid, cid, case, tier, seed):
     spec = PROPS[pid]
     out = []
+    case = dict(case, _cid=cid)
     for k, nm in namings_for(pid, tier, seed, cid):
         events, extra = spec['script'](case, nm, tier, seed)
         out.append(mk_trace(pid, cid, k, case, nm, events, extra))
@@ -373,3 +374,87 @@ UVL_NAME_CLASSES = ('space', 'punct', 'uvlkw', 'opword', 'digit0', 'under0', 'no
 prop('C01', fam_names('uvl'), name_classes=UVL_NAME_CLASSES, naming_matters=True,
      assumptions=['names carry no double quote, dot or newline; strings no apostrophe; floats have a plain decimal repr'])(
     roundtrip_script('uvl'))
+
+
+# ---------------------------------------------------------------------------
+# Serialisation: purity, determinism, returned text (C12)
+import json as _json  # noqa: E402
+import subprocess  # noqa: E402
+import sys  # noqa: E402
+
+ALL_WRITERS = ['uvl', 'afm', 'json', 'glencoe', 'fide', 'splot', 'clafer', 'pl']
+READABLE = ['uvl', 'json', 'glencoe', 'fide']
+
+
+def env_matrix(tier):
+    seeds = ['0', '1', '2'] if tier == 'quick' else [str(i) for i in range(16)]
+    locs = [('C', '0')] if tier == 'quick' else [('C', '0'), ('POSIX', '0'), ('C.UTF-8', '1'), ('C', '1')]
+    out = []
+    for hs in seeds:
+        for lc, u8 in locs:
+            out.append({'PYTHONHASHSEED': hs, 'LC_ALL': lc, 'LANG': lc, 'PYTHONUTF8': u8})
+    if tier == 'quick':
+        out.append({'PYTHONHASHSEED': '3', 'LC_ALL': 'POSIX', 'LANG': 'POSIX', 'PYTHONUTF8': '0'})
+        out.append({'PYTHONHASHSEED': '4', 'LC_ALL': 'C.UTF-8', 'LANG': 'C.UTF-8', 'PYTHONUTF8': '1'})
+    return out
+
+
+def prepare_c12(cases, tier, seed):
+    """Run the fresh-interpreter legs once for all cases (one process per environment)."""
+    iod = os.environ.get('VERIF_IODIR', '/verif/.work/io')
+    os.makedirs(iod, exist_ok=True)
+    cpath = os.path.join(iod, 'c12cases.ndjson')
+    with open(cpath, 'w') as f:
+        for cid, c in cases:
+            for k, nm in namings_for('C12', tier, seed, cid):
+                f.write(_json.dumps({'cid': cid, 'k': k, 'hist': c['hist'], 'writers': ALL_WRITERS,
+                                     'naming': {'classes': list(nm.classes), 'k': nm.k, 'seed': nm.seed}}) + '\n')
+    envs = env_matrix(tier)
+    procs = []
+    for i, env in enumerate(envs):
+        e = dict(os.environ)
+        e.update(env)
+        e['VERIF_IODIR'] = os.path.join(iod, 'env%d' % i)
+        out = os.path.join(iod, 'c12env%d.ndjson' % i)
+        procs.append((i, out, subprocess.Popen(
+            [sys.executable, os.path.join(os.path.dirname(os.path.abspath(__file__)), 'envwriter.py'),
+             cpath, out, 'env%d' % i], env=e, stdout=subprocess.DEVNULL, stderr=subprocess.PIPE)))
+    byenv = {}
+    for i, out, p in procs:
+        _, err = p.communicate()
+        if p.returncode != 0:
+            raise RuntimeError('environment leg %d failed: %s' % (i, err.decode(errors='replace')[-2000:]))
+        with open(out) as f:
+            for line in f:
+                r = _json.loads(line)
+                byenv.setdefault((r['cid'], r['k']), []).append((i, r['ev']))
+    res = []
+    for cid, c in cases:
+        c = dict(c, env_events={k: [ev for _, evs in sorted(v) for ev in evs]
+                                for (cc, k), v in byenv.items() if cc == cid},
+                 envs=envs)
+        res.append((cid, c))
+    return res
+
+
+@prop('C12', ['C12-Tree', 'C12-Ctc', 'C12-Attr'], name_classes=('nonascii', 'space'), naming_matters=True,
+      name_stride={'quick': 2, 'thorough': 1}, prepare=prepare_c12,
+      assumptions=['the environment matrix (hash seeds x locale x PYTHONUTF8) is sampled, not exhaustive',
+                   'purity is judged on the projected object graph'])
+def script_c12(case, naming, tier, seed):
+    b, ev = load_event(case, naming)
+    events = [ev]
+    for rep in range(3):                       # repeated calls on the same model object
+        for fmt in ALL_WRITERS:
+            wev, path, _ = formats.write_event(fmt, b.model, naming)
+            wev['args']['env'] = 'inproc%d' % rep
+            events.append(wev)
+            if rep == 0 and fmt in READABLE and wev['out'] == 'value':
+                rev, _ = formats.read_event(fmt, path, naming, action='ReadBack')
+                events.append(rev)
+            if os.path.exists(path):
+                os.remove(path)
+    k = next(i for i, (kk, nm) in enumerate(namings_for('C12', tier, seed, case['_cid'])) if nm.classes == naming.classes)
+    kk = namings_for('C12', tier, seed, case['_cid'])[k][0]
+    events.extend(case['env_events'].get(kk, []))
+    return events, {'envs': len(case['envs'])}
